@@ -4,19 +4,49 @@ import (
 	"flag"
 	"fmt"
 	"os"
+	"path/filepath"
+	"sort"
+	"strconv"
 	"strings"
+	"time"
 
 	"golang.org/x/tools/go/ssa"
 )
 
 func main() {
-	dir := flag.String("repo", "/repo", "repository working tree")
-	dump := flag.String("dump", "", "debug: dump call terms of the function with this key")
+	dir := flag.String("repo", "/repo", "repository working tree to analyse")
+	verif := flag.String("verif", "/verif", "verification directory (evidence, known findings)")
+	prop := flag.String("property", "", "property id (C01..C20) or 'all'")
+	tier := flag.String("tier", "quick", "quick | thorough")
+	dump := flag.String("dump", "", "debug: dump call terms of the functions with these keys (comma separated)")
+	explain := flag.String("explain", "", "print every obligation whose key contains this string, with witness")
+	noEvidence := flag.Bool("no-evidence", false, "do not write evidence files (used by the self-test on scratch copies)")
+	listObs := flag.Bool("list", false, "print every obligation")
 	flag.Parse()
+	t0 := time.Now()
+	if env := os.Getenv("VERIF_TIER"); env != "" && *tier == "" {
+		*tier = env
+	}
+	seed := int64(0)
+	if s := os.Getenv("VERIF_SEED"); s != "" {
+		seed, _ = strconv.ParseInt(s, 10, 64)
+	}
+
 	e, err := Load(*dir)
 	if err != nil {
-		fmt.Println("LOAD ERROR:", err)
-		os.Exit(2)
+		// a check that cannot load the program must not pass
+		fmt.Println("UNDECIDED: cannot load /repo:", err)
+		props := propList(*prop)
+		for _, p := range props {
+			o := &Ob{Rule: "load", Func: "-", Construct: "load", Status: "undecided", Msg: err.Error()}
+			path := writeViolation(*verif, p, 0, o, "undecided")
+			if !*noEvidence {
+				res := &PropResult{Property: p, Obs: []*Ob{o}, Violations: []*Ob{o}}
+				writeEvidence(&Engine{Dir: *dir}, *verif, res, *tier, seed, time.Since(t0).Seconds(), nil)
+			}
+			fmt.Printf("VIOLATION property=%s replay=%s\n", p, path)
+		}
+		os.Exit(1)
 	}
 	if *dump != "" {
 		for _, k := range strings.Split(*dump, ",") {
@@ -31,6 +61,83 @@ func main() {
 		}
 		return
 	}
+	known, err := loadKnown(filepath.Join(*verif, "known_findings.json"))
+	if err != nil {
+		fmt.Println("UNDECIDED: cannot read known_findings.json:", err)
+		os.Exit(1)
+	}
+	exit := 0
+	for _, p := range propList(*prop) {
+		res := runProperty(e, p, known)
+		if *listObs || *explain != "" {
+			for _, o := range res.Obs {
+				if *explain != "" && !strings.Contains(o.Key(), *explain) {
+					continue
+				}
+				fmt.Printf("[%s] %s\n    %s\n", o.Status, o.Key(), o.Msg)
+				for _, w := range o.Witness {
+					fmt.Println("      witness:", w)
+				}
+				if len(o.Pos) > 0 {
+					fmt.Println("      at:", strings.Join(o.Pos, " "))
+				}
+			}
+		}
+		ok := 0
+		for _, o := range res.Obs {
+			if o.Status == "ok" {
+				ok++
+			}
+		}
+		fmt.Printf("property %s tier=%s: %d rules, %d obligations, %d discharged, %d known findings, %d unlisted violations/undecided (%.1fs)\n",
+			p, *tier, len(res.Rules), len(res.Obs), ok, len(res.Known), len(res.Violations), time.Since(t0).Seconds())
+		seen := map[string]bool{}
+		for _, o := range res.Known {
+			line := fmt.Sprintf("KNOWN-FINDING: property=%s %s [%s]", p, o.Known, o.Key())
+			if !seen[line] {
+				fmt.Println(line)
+				seen[line] = true
+			}
+		}
+		for _, k := range res.Stale {
+			fmt.Printf("note: listed finding not re-detected (stale): %s | %s | %s\n", k.Rule, k.Function, k.Construct)
+		}
+		for i, o := range res.Violations {
+			kind := "violation"
+			if o.Status == "undecided" {
+				kind = "undecided"
+			}
+			path := writeViolation(*verif, p, i+1, o, kind)
+			fmt.Printf("  %s: %s\n    %s\n", strings.ToUpper(kind), o.Key(), o.Msg)
+			for _, w := range o.Witness {
+				fmt.Println("      witness:", w)
+			}
+			if len(o.Pos) > 0 {
+				fmt.Println("      at:", strings.Join(o.Pos, " "))
+			}
+			fmt.Printf("VIOLATION property=%s replay=%s\n", p, path)
+			exit = 1
+		}
+		if !*noEvidence {
+			if err := writeEvidence(e, *verif, res, *tier, seed, time.Since(t0).Seconds(), nil); err != nil {
+				fmt.Println("cannot write evidence:", err)
+				exit = 1
+			}
+		}
+	}
+	os.Exit(exit)
+}
+
+func propList(p string) []string {
+	if p == "" || p == "all" {
+		var out []string
+		for k := range propMetas {
+			out = append(out, k)
+		}
+		sort.Strings(out)
+		return out
+	}
+	return strings.Split(p, ",")
 }
 
 func dumpFn(e *Engine, fn *ssa.Function) {
@@ -59,6 +166,8 @@ func dumpFn(e *Engine, fn *ssa.Function) {
 			case *ssa.Store:
 				r, _, p := fa.addrPath(x.Addr)
 				fmt.Printf("b%d %s STORE %s%s := %s\n", b.Index, e.InstrPos(in), r, pathJoin(p), fa.Term(x.Val))
+			case *ssa.If:
+				fmt.Printf("b%d %s IF %s -> b%d b%d\n", b.Index, e.InstrPos(in), fa.Term(x.Cond), b.Succs[0].Index, b.Succs[1].Index)
 			case *ssa.Return:
 				var rs []string
 				for _, r := range x.Results {
